@@ -52,6 +52,9 @@ def generate(seed, tier):
             m = LC.gen_mine(rng, latest_bias=0.7, max_txs=2)
             m.update({'op': 'relay_block', 'peer': rng.randrange(3), 'ahead': rng.choice([0, 0, 0, 10, 29, 30])})
             ops.append(m)
+        elif x < 0.95:
+            ops.append({'op': 'relay_invalid_block', 'kind': rng.choice(['reward_plus_one', 'sig_other_key', 'ts_equal_parent', 'ev_sample']),
+                        'a': rng.randrange(1000), 'b': rng.randrange(1000), 'peer': rng.randrange(3)})
         else:
             ops.append({'op': 'clock', 'dt': rng.choice([100, 1000, 5000, 31_000, 120_000])})
     cfg = {'base': 'hreal', 'hard': rng.random() < 0.5, 'build': build, 'miners': miners, 'bots': rng.randint(1, 3),
@@ -351,8 +354,30 @@ def execute(script):
                         w.settle(2500)
                     sync_shadow()
                     res.bump('blocks_relayed')
+            elif kind == 'relay_invalid_block':
+                from engines import forgeries
+                sync_shadow()
+                hb = chain.blocks[w.cm.coinstate.current_chain_hash]
+                try:
+                    made = forgeries.build(sim, op['kind'], hb, dict(op, dt=1, clock=0))
+                except Exception:
+                    made = None
+                if made is not None and made[0].header.summary.timestamp <= w.node_clock() + 20:
+                    c = w.conn(op.get('peer', 0))
+                    if c is not None:
+                        c.send(M.DataMessage(M.DATA_BLOCK, made[0]))
+                        w.settle(2500)
+                        res.bump('invalid_blocks_relayed')
             elif kind == 'clock':
                 w.settle(op.get('dt', 1000))
+            # whatever happens afterwards, a block this node found stays in the chain state it serves
+            if found_ids and not res.violations and not stop['now']:
+                served_ids = w.cm.coinstate.block_by_hash
+                gone = [b for b in found_ids if b not in served_ids]
+                if gone:
+                    res.violate(PROP, 'C12/found-block-dropped-from-served-state',
+                                'after %s a block this node had found and adopted is no longer in the chain state it serves' % kind)
+                    break
         if pending_broadcast and not res.violations and not stop['now']:
             check_broadcasts()
         if node.loop_error and not res.violations:
